@@ -11,8 +11,9 @@ stateful downstream operators, the timing of `render_aggregate`'s loop).
                                follow, everything else is blank.  Before the repair this held only when
                                the first line never got shorter (the frame's first row was never erased).
 * `C16_screen_full` / `C16_screen_full_holds`   the blank `w × h` terminal instance.
-* `C16_row_modes`              `-o logfmt` / `--format` on a terminal (placeholder frames, since 96fd541 complete
-                               lines): after any number of refreshes only the final rows are on screen.
+* `C16_row_modes`              `-o logfmt` / `--format` on a terminal of any width (placeholder frames: since
+                               96fd541 complete lines, since db52f75 cut to the terminal width): after any
+                               number of refreshes only the final rows are on screen.
 * `C16_reentrant`              a downstream operator's output for a frame is a function of the
                                incoming table only, whatever state earlier frames left
                                (`liveStage` vs the stateless `applyStage`).
@@ -354,36 +355,41 @@ example : ∀ f ∈ [[['k', ' ', 'n'], ['-', '-', '-'], ['a', ' ', '1']]] ++ [[[
 
 /-! ### row-oriented output modes (`-o logfmt`, `--format`) on a terminal -/
 
-theorem placeholder_ok (w room : Nat) (hw : 55 ≤ w) (hr : 1 ≤ room) : FrameOK w room [placeholder] := by
+theorem placeholder_ok (w room : Nat) (hr : 1 ≤ room) : FrameOK w room [placeholderLine w] := by
   refine ⟨by simp, by simpa using hr, ?_⟩
   intro l hl
   simp only [List.mem_singleton] at hl
   subst hl
-  refine ⟨?_, by decide⟩
-  have : placeholder.length = 55 := by decide
-  omega
+  refine ⟨by simp [placeholderLine, List.length_take]; omega, ?_⟩
+  intro c hc
+  have hall : ∀ c ∈ placeholder, isPrintable c = true := by decide
+  exact hall c (List.mem_of_mem_take hc)
 
 /-- **C16_row_modes.**  In the row-oriented modes every intermediate refresh draws the placeholder
-line; after any number `k` of them, the final rows (`last`, fitting the terminal) are all that is
-on screen.  (Terminals narrower than the 55-character placeholder wrap it: not covered.) -/
+line, cut to the terminal width; after any number `k` of them, on a terminal of ANY width, the
+final rows (`last`, fitting the terminal) are all that is on screen. -/
 theorem C16_row_modes (w : Nat) (above : List Str) (room k : Nat) (last : List Str)
-    (hw : 55 ≤ w) (hlast : FrameOK w room last) :
-    ∃ s, display (Screen.startAt w above room) (ttyBytes {} (rowModeFrames k (frameText last))) = some s ∧
+    (hlast : FrameOK w room last) :
+    ∃ s, display (Screen.startAt w above room) (ttyBytes {} (rowModeFrames w k (frameText last))) = some s ∧
       s.rows = above ++ last.map (padRow w) ++ List.replicate (room + 1 - last.length) (blankRow w) ∧
       s.cr = above.length + last.length ∧ s.cc = 0 := by
   have hr : 1 ≤ room := by
     have h3 : last.length ≠ 0 := fun e => hlast.1 (List.length_eq_zero_iff.mp e)
     have := hlast.2.1
     omega
-  have hframes : rowModeFrames k (frameText last) = ((List.replicate k [placeholder]) ++ [last]).map frameText := by
+  have hframes : rowModeFrames w k (frameText last) =
+      ((List.replicate k [placeholderLine w]) ++ [last]).map frameText := by
     simp [rowModeFrames, frameText, placeholderFrame, Pretty.unlines]
   rw [hframes]
   apply C16_screen
   intro f hf
   simp only [List.mem_append, List.mem_replicate, List.mem_singleton] at hf
   rcases hf with ⟨_, rfl⟩ | rfl
-  · exact placeholder_ok w room hw hr
+  · exact placeholder_ok w room hr
   · exact hlast
+
+/-- the former witness: a 30-column terminal shows `data will be output once the c` (30 characters) -/
+example : (placeholderLine 30).length = 30 := by decide
 
 /-- what the unrepaired placeholder (no `\n`) did, on the same emulator: the text of a frame without
 a final newline is erased by the next reset, but the cursor stays in its column, so the next frame
